@@ -2,6 +2,7 @@ import Driver.C18
 import Driver.C06
 import Driver.C19
 import Driver.C20
+import Driver.Files
 /-! `nvdriver`: reads one command per line on stdin, prints one observation line per command.
 Command names may carry type suffixes (`c18.erase.u16`): the model is width-agnostic, so the
 longest registered prefix decides. -/
@@ -22,6 +23,11 @@ partial def loop (hin : IO.FS.Stream) (hout : IO.FS.Stream) : IO Unit := do
   if l.isEmpty then hout.putStrLn "" else
     match l.splitOn " " with
     | cmd :: args =>
+      match Files.ioHandlers.find? (·.1 == cmd) with
+      | some (_, h) =>
+        let r ← (try h args catch e => pure s!"io-error {e}")
+        hout.putStrLn r
+      | none =>
       match findHandler cmd with
       | some h => hout.putStrLn (h args)
       | none => hout.putStrLn "bad-op"
